@@ -20,11 +20,12 @@ func init() {
 			{"BUS-SEND-LOCKED", ruleBusSendLocked},
 			{"CONCTXN-WRAP", ruleConcTxnWrap},
 			{"TXN-AFTER-LOCK", ruleTxnAfterLock},
+			{"CACHE-FRESH-PER-CALL", ruleCacheFreshPerCall},
 			{"MERGE-QUEUE", ruleMergeQueue},
 			{"MERGE-SERIAL", ruleMergeSerial},
 		},
 		Meta: eng.PropMeta{
-			Explanation: "Schedules are not enumerable statically; data-race freedom is decided as the classic lockset discipline on a confirmed table of shared state, exact on that table: (LOCKSET) every access to server.{topics,replicators} holds server.mu, to server.conns holds connMu, to server.peerIdentities holds piMux, to mergeQueue.keys holds mergeQueue.mutex, to channelBus.isClosed holds closeMutex (must-hold dataflow over go/cfg; goroutine literals start with nothing held; constructors exempt); (LOCK-ESCAPE) no map-typed element loaded from a guarded map is used after the lock was released; (CONFINEMENT) channelBus.subs/events are touched only by handleChannel and the constructor, handleChannel is the only receiver of commandChannel and is started exactly once; (BUS-SEND-LOCKED) every send on commandChannel outside handleChannel happens while closeMutex is held and after the isClosed test; (CONCTXN-WRAP) the store tree of a concurrent transaction is built from the mutex-holding wrapper and the wrapper overrides every corekv.ReaderWriter method; (MERGE-QUEUE) mergeQueue.add inserts only on the absent edge under the lock and re-checks after being woken; (MERGE-SERIAL) merges of one document run between add and a deferred done. (TXN-AFTER-LOCK) as in C15.",
+			Explanation: "Schedules are not enumerable statically; data-race freedom is decided as the classic lockset discipline on a confirmed table of shared state, exact on that table: (LOCKSET) every access to server.{topics,replicators} holds server.mu, to server.conns holds connMu, to server.peerIdentities holds piMux, to mergeQueue.keys holds mergeQueue.mutex, to channelBus.isClosed holds closeMutex (must-hold dataflow over go/cfg; goroutine literals start with nothing held; constructors exempt); (LOCK-ESCAPE) no map-typed element loaded from a guarded map is used after the lock was released; (CONFINEMENT) channelBus.subs/events are touched only by handleChannel and the constructor, handleChannel is the only receiver of commandChannel and is started exactly once; (BUS-SEND-LOCKED) every send on commandChannel outside handleChannel happens while closeMutex is held and after the isClosed test; (CONCTXN-WRAP) the store tree of a concurrent transaction is built from the mutex-holding wrapper and the wrapper overrides every corekv.ReaderWriter method; (MERGE-QUEUE) mergeQueue.add inserts only on the absent edge under the lock and re-checks after being woken; (MERGE-SERIAL) merges of one document run between add and a deferred done. (TXN-AFTER-LOCK) as in C15. LOCKSET also requires the exclusive lock (Lock, not RLock) where a guarded field is written. (CACHE-FRESH-PER-CALL) the lock-free short-id caches carried in the context are new maps for every API call: each installing function of internal/db/id returns context.WithValue(…, <new map>) on every path.",
 			NotDecided:  "races on state outside the table, deadlock freedom (e.g. Publish holding closeMutex.RLock while the command channel is full), final-state accounting of counters under concurrency, absence of panics under all interleavings",
 		},
 	})
@@ -121,6 +122,10 @@ func ruleLockset(c *eng.Ctx) {
 					}
 					want := eng.ExprStr(se.X) + "." + g.mutex
 					held := ls.HeldAt(pt)
+					if held[want] && writesThrough(body, se) && !ls.HeldExclusiveAt(pt)[want] {
+						c.Bad(rule, construct, se.Pos(), fmt.Sprintf("%s.%s is written while %s is only read-locked (RLock): concurrent writers — and readers holding the same shared lock — race on it", g.typ, se.Sel.Name, want))
+						return
+					}
 					c.Check(held[want], rule, construct, se.Pos(), "accessed with "+want+" held",
 						fmt.Sprintf("%s.%s is accessed without %s held on every path (held here: %v): a data race with the other accessors, which all hold that lock", g.typ, se.Sel.Name, want, setKeys(held)))
 				})
@@ -474,4 +479,113 @@ func ruleMergeQueue(c *eng.Ctx) {
 	}, nil)
 	c.Check(!exits, rule, "mergeQueue.add:recheck-after-wake", recv.Pos(), "a woken waiter competes for the key again",
 		"after being woken, add returns at "+c.P.Rel(where)+" without re-checking the map: with two or more waiters all of them proceed at once")
+}
+
+// writesThrough reports whether the field selection se is written in body: assigned, assigned through
+// an index (m[k] = v), incremented, or the map argument of delete.
+func writesThrough(body *ast.BlockStmt, se *ast.SelectorExpr) bool {
+	w := false
+	root := func(e ast.Expr) ast.Expr {
+		e = ast.Unparen(e)
+		for {
+			if ix, ok := e.(*ast.IndexExpr); ok {
+				e = ast.Unparen(ix.X)
+				continue
+			}
+			return e
+		}
+	}
+	ast.Inspect(body, func(m ast.Node) bool {
+		switch x := m.(type) {
+		case *ast.AssignStmt:
+			for _, l := range x.Lhs {
+				if root(l) == ast.Expr(se) {
+					w = true
+				}
+			}
+		case *ast.IncDecStmt:
+			if root(x.X) == ast.Expr(se) {
+				w = true
+			}
+		case *ast.CallExpr:
+			if id, ok := x.Fun.(*ast.Ident); ok && id.Name == "delete" && len(x.Args) == 2 && root(x.Args[0]) == ast.Expr(se) {
+				w = true
+			}
+		}
+		return !w
+	})
+	return w
+}
+
+// ruleCacheFreshPerCall: the short-id caches carried in the context are plain maps without a lock.
+// They are race free only because every API call installs its own, new map (InitContext runs the
+// Init…Cache functions for each call): goroutines that share one prepared context or one concurrent
+// transaction never share a cache. So each function of internal/db/id that installs a map-typed value
+// into the context returns, on every path, context.WithValue(…, <new map>) — never the incoming
+// context unchanged and never a map taken from it.
+func ruleCacheFreshPerCall(c *eng.Ctx) {
+	const rule = "CACHE-FRESH-PER-CALL"
+	n := 0
+	for _, fi := range c.P.FuncsIn("internal/db/id") {
+		if fi.Decl.Body == nil || isTestFile(c.P, fi) {
+			continue
+		}
+		info := fi.Pkg.TypesInfo
+		sig := fi.Obj.Type().(*types.Signature)
+		if sig.Results().Len() != 1 || eng.TypeName(sig.Results().At(0).Type()) != "context.Context" {
+			continue
+		}
+		fresh := func(e ast.Expr) (isInstall, isFresh bool) {
+			call, ok := ast.Unparen(e).(*ast.CallExpr)
+			if !ok || eng.CalleeName(info, call) != "context.WithValue" || len(call.Args) != 3 {
+				return false, false
+			}
+			t := info.TypeOf(call.Args[2])
+			if t == nil {
+				return false, false
+			}
+			if _, isMap := t.Underlying().(*types.Map); !isMap {
+				return false, false
+			}
+			switch v := ast.Unparen(call.Args[2]).(type) {
+			case *ast.CompositeLit:
+				return true, true
+			case *ast.CallExpr:
+				if id, ok := v.Fun.(*ast.Ident); ok && id.Name == "make" {
+					return true, true
+				}
+			}
+			return true, false
+		}
+		installs := false
+		ast.Inspect(fi.Decl.Body, func(m ast.Node) bool {
+			if e, ok := m.(ast.Expr); ok {
+				if is, _ := fresh(e); is {
+					installs = true
+				}
+			}
+			return true
+		})
+		if !installs {
+			continue
+		}
+		n++
+		good := true
+		pos := fi.Decl.Pos()
+		ast.Inspect(fi.Decl.Body, func(m ast.Node) bool {
+			if _, ok := m.(*ast.FuncLit); ok {
+				return false
+			}
+			if r, ok := m.(*ast.ReturnStmt); ok && len(r.Results) == 1 {
+				if is, fr := fresh(r.Results[0]); !is || !fr {
+					good = false
+					pos = r.Pos()
+				}
+			}
+			return true
+		})
+		c.Check(good, rule, shortFn(fi)+":installs-a-new-map-on-every-path", pos, "every call gets its own cache",
+			shortFn(fi)+" can return a context whose lock-free cache map is not new (the incoming context, or a map read from it): calls that share a prepared context — several goroutines on one concurrent transaction — then read and write one plain map concurrently")
+	}
+	c.Floor(rule, n, 2)
 }
